@@ -213,6 +213,16 @@ pub enum Step {
     M(usize),
 }
 
+/// A fault placed *inside* an operation: when a `filter_entry` closure of walker `w` is shown the
+/// entry at `path`, the mutator applies mutation `mutation` before the closure returns (i.e. while
+/// the item is in flight through the stack, not between two `next()` calls).
+#[derive(Serialize, Deserialize, Clone, Debug, PartialEq, Eq)]
+pub struct Trigger {
+    pub w: usize,
+    pub path: String,
+    pub mutation: usize,
+}
+
 #[derive(Serialize, Deserialize, Clone, Debug, PartialEq, Eq)]
 pub struct Scenario {
     pub prop: String,
@@ -228,6 +238,8 @@ pub struct Scenario {
     /// shrunk scenario needs no schedule at all).
     #[serde(default)]
     pub schedule: Vec<Step>,
+    #[serde(default, skip_serializing_if = "Vec::is_empty")]
+    pub triggers: Vec<Trigger>,
 }
 
 pub fn join(a: &str, b: &str) -> String {
